@@ -5,42 +5,19 @@ sizes and dimensions.  Validity predicates (`ValidSet`, `ValidPartialSet`, `FarC
 `ValidSym`) are in `Proofs/DSetBasic.lean`.
 -/
 import DSymVerif.Proofs.DSetSym
+import DSymVerif.Proofs.DSetTravSpec
+import DSymVerif.Proofs.DSetOrient
+import DSymVerif.Proofs.DSetExamples
 
 namespace DSymVerif.C02
 open DSymVerif.DS
-
-/-! ### small witnesses for the non-vacuity examples -/
-
-/-- one chamber, dimension 2, all operations fix it -/
-def ex1 : DSetData := { size := 1, dim := 2, op := #[1, 1, 1] }
-/-- two chambers, dimension 2: s0 = s1 = (1 2), s2 = id -/
-def ex2 : DSetData := { size := 2, dim := 2, op := #[2, 2, 1, 1, 1, 2] }
-
-theorem ex2_valid : ValidSet ex2 := by
-  refine ⟨by decide, ?_, ?_⟩
-  · intro i d hi h1 h2
-    have hi' : i ≤ 2 := hi
-    have h2' : d ≤ 2 := h2
-    have : (i = 0 ∨ i = 1 ∨ i = 2) ∧ (d = 1 ∨ d = 2) := by omega
-    rcases this with ⟨rfl | rfl | rfl, rfl | rfl⟩ <;> decide
-  · intro i d hi h1 h2
-    have hi' : i ≤ 2 := hi
-    have h2' : d ≤ 2 := h2
-    have : (i = 0 ∨ i = 1 ∨ i = 2) ∧ (d = 1 ∨ d = 2) := by omega
-    rcases this with ⟨rfl | rfl | rfl, rfl | rfl⟩ <;> decide
-
-theorem ex2_far : FarCommute ex2 := by
-  intro i j d hij hj h1 h2
-  have hj' : j ≤ 2 := hj
-  have h2' : d ≤ 2 := h2
-  have : i = 0 ∧ j = 2 ∧ (d = 1 ∨ d = 2) := by omega
-  rcases this with ⟨rfl, rfl, rfl | rfl⟩ <;> decide
+open DSymVerif.DS.View (TravItem travFuel travCollect todoInit)
 
 /-! ### 1. out-of-range arguments give `None`, never a panic — for all data -/
 
 theorem out_of_range_none_op (s : DSetData) (i d : Nat) (h : i > s.dim ∨ d < 1 ∨ d > s.size) :
-    s.opPartial i d = none ∧ s.opSimple i d = none ∧ (DSymData.op ⟨s, #[], #[], #[]⟩ i d = none) :=
-  ⟨opPartial_oor s i d h, opSimple_oor s i d h, opSimple_oor s i d h⟩
+    s.opPartial i d = none ∧ s.opSimple i d = none ∧ (∀ y : DSymData, y.dset = s → y.op i d = none) :=
+  ⟨opPartial_oor s i d h, opSimple_oor s i d h, fun y hy => by subst hy; exact opSimple_oor _ i d h⟩
 
 example : ex2.opPartial 3 1 = none ∧ ex2.opSimple 0 0 = none := by decide
 
@@ -130,15 +107,30 @@ example : ValidPartialSet ex2 := ex2_valid.toPartial
 
 /-- For |i-j| > 1 the overrides answer "1 if `op i d = op j d` else 2" without looking at the
     orbit tables; on a complete D-set with commuting far operations this is the generic orbit
-    length. -/
+    length; `v = 2 / r` and `m = 2` (the D-symbol axiom m_ij = 2). -/
 theorem r_nonadjacent (s : DSymData) (h : ValidSet s.dset) (hf : FarCommute s.dset) (i j d : Nat)
     (hij : i + 1 < j ∨ j + 1 < i) (hi : i ≤ s.dim) (hj : j ≤ s.dim) (h1 : 1 ≤ d) (h2 : d ≤ s.size) :
     s.rPartial i j d = s.view.r i j d ∧ s.rSimple i j d = s.view.r i j d ∧
-    s.rPartial i j d = .ok (some (if s.dset.opU i d = s.dset.opU j d then 1 else 2)) := by
+    s.rPartial i j d = .ok (some (if s.dset.opU i d = s.dset.opU j d then 1 else 2)) ∧
+    s.vPartial i j d = .ok (some (if s.dset.opU i d = s.dset.opU j d then 2 else 1)) ∧
+    s.mPartial i j d = .ok (some 2) := by
   have a := s.rPartial_far hij hi hj h1 h2
   have b := h.r_far hf hij hi hj h1 h2
+  have c : s.vPartial i j d = .ok (some (if s.dset.opU i d = s.dset.opU j d then 2 else 1)) := by
+    rw [s.vPartial_far' hij hi hj h1 h2]
+    have e1 : s.op i d = some (s.dset.opU i d) := opSimple_eq_some.2 ⟨hi, h1, h2, rfl⟩
+    have e2 : s.op j d = some (s.dset.opU j d) := opSimple_eq_some.2 ⟨hj, h1, h2, rfl⟩
+    rw [e1, e2]
+    by_cases he : s.dset.opU i d = s.dset.opU j d
+    · rw [if_pos (by rw [he]), if_pos he]
+    · rw [if_neg (fun hc => he (Option.some.inj hc)), if_neg he]
   rw [s.view_eq]
-  exact ⟨a.trans b.symm, a.trans b.symm, a⟩
+  refine ⟨a.trans b.symm, a.trans b.symm, a, c, ?_⟩
+  unfold DSymData.mPartial
+  rw [a, c]
+  by_cases he : s.dset.opU i d = s.dset.opU j d
+  · rw [if_pos he, if_pos he]; rfl
+  · rw [if_neg he, if_neg he]; rfl
 
 example : ValidSet (DSymData.ofSimple ex2).dset ∧ FarCommute (DSymData.ofSimple ex2).dset ∧
     (0 + 1 < 2 ∧ 0 ≤ (DSymData.ofSimple ex2).dim ∧ 2 ≤ (DSymData.ofSimple ex2).dim) :=
@@ -191,8 +183,6 @@ theorem representations_agree (s : DSymData) (h : ValidSym s) (i j d : Nat)
   refine ⟨this, this, rfl, ?_⟩
   rw [h.set.viewPartial_eq_viewSimple]; rfl
 
-theorem ex2_validSym : ValidSym (DSymData.ofSimple ex2) := ValidSym.ofSimple ex2_valid ex2_far
-
 example : ValidSym (DSymData.ofSimple ex2) ∧ (1 ≤ (DSymData.ofSimple ex2).dim ∧ 1 ≤ (DSymData.ofSimple ex2).size) :=
   ⟨ex2_validSym, by decide⟩
 
@@ -226,5 +216,248 @@ theorem validSym_constructors (ds : DSetData) (h : ValidSet ds) (hf : FarCommute
   ⟨ValidSym.ofSimple h hf, fun _ _ _ _ _ hs ht => hs.setV ht⟩
 
 example : ValidSet ex2 ∧ FarCommute ex2 := ⟨ex2_valid, ex2_far⟩
+
+/-! ### 7. the `Traversal` iterator -/
+
+/-- **Soundness of every reported item**, for every view (no assumption on `op`), all index
+    lists and all seed lists.  If `(mi, d, di)` is reported after the items `pre`:
+    * `mi = some i`: `i` is one of the indices, `di = op(i,d).unwrap_or(d)`, and `d` was reported
+      earlier as a target (a start item `(None, d, d)` has target `d`);
+    * `mi = None`: `di = d`, `d` is a seed, `d` was not reached before, and all `k`-edges
+      (`k ∈ indices`) of all chambers reached before have already been reported
+      (the previous components are finished when a new one is started), and the seeds listed
+      before `d` have all been reached (seeds are tried in the given order);
+    * the pair (chamber `d`, index `mi`) was not touched by an earlier item with the same index:
+      no (chamber, index) pair is reported twice. -/
+theorem traversal_sound (s : View) (indices seeds : List Nat) (pre post : List TravItem) (t : TravItem)
+    (h : s.traversal indices seeds = pre ++ t :: post) :
+    (∀ i, t.1 = some i → i ∈ indices ∧ t.2.2 = (s.op i t.2.1).getD t.2.1 ∧ ∃ u ∈ pre, u.2.2 = t.2.1) ∧
+    (t.1 = none → t.2.2 = t.2.1 ∧ t.2.1 ∈ seeds ∧ (∀ u ∈ pre, u.2.2 ≠ t.2.1) ∧
+      (∀ u ∈ pre, ∀ k ∈ indices, ∃ w ∈ pre, w.1 = some k ∧ (w.2.1 = u.2.2 ∨ w.2.2 = u.2.2)) ∧
+      ∃ l1 l2, seeds = l1 ++ t.2.1 :: l2 ∧ ∀ x ∈ l1, ∃ u ∈ pre, u.2.2 = x) ∧
+    (∀ u ∈ pre, u.1 = t.1 → u.2.1 ≠ t.2.1 ∧ u.2.2 ≠ t.2.1) := by
+  have hok := traversal_item_ok s indices seeds pre post t h
+  refine ⟨?_, ?_, ?_⟩
+  · intro i hi
+    obtain ⟨a, b, u, hu, hue⟩ := hok.edge i hi
+    exact ⟨a, b, u, List.mem_reverse.1 hu, hue⟩
+  · intro hn
+    obtain ⟨a, b, c, l1, l2, hsplit, hl1⟩ := hok.start hn
+    refine ⟨a, b, ?_, ?_, l1, l2, hsplit, ?_⟩
+    · intro u hu he
+      apply hok.fresh
+      exact ⟨u, List.mem_reverse.2 hu, by simp [seenOf, hn, he]⟩
+    · intro u hu k hk
+      obtain ⟨w, hw, hwk⟩ := c u.2.2 ⟨u, List.mem_reverse.2 hu, rfl⟩ k hk
+      exact ⟨w, List.mem_reverse.1 hw, hwk⟩
+    · intro x hx
+      obtain ⟨u, hu, hue⟩ := hl1 x hx
+      exact ⟨u, List.mem_reverse.1 hu, hue⟩
+  · intro u hu hmi
+    constructor
+    · intro he; apply hok.fresh
+      exact ⟨u, List.mem_reverse.2 hu, by simp [seenOf, hmi, he]⟩
+    · intro he; apply hok.fresh
+      exact ⟨u, List.mem_reverse.2 hu, by simp [seenOf, hmi, he]⟩
+
+example : ex2.viewSimple.traversal [0, 1] [1] = [] ++ (none, 1, 1) :: [(some 0, 1, 2), (some 1, 2, 1)] := by
+  decide
+
+/-- **Completeness**, for every view whose operations are partial involutions with values in
+    `1..size` (`View.PInvol`; e.g. `viewPartial` of a `ValidPartialSet`, `viewSimple` / `DSymData.view`
+    of a `ValidSet`), all index lists and all seed lists (`out` = the collected traversal):
+    1. the chambers reported as targets are exactly those reachable from a seed;
+    2. for every reached chamber and every index the corresponding edge is reported …
+    3. … and no two items with the same index touch a common chamber (exactly once);
+    4. every reached chamber lies in the component of a start item `(None, d, d)` …
+    5. … and different start items lie in different components (exactly one per component);
+    6. the fuel `travFuel` suffices: any larger fuel values give the same output (the model's
+       bounds never cut the Rust iterator short). -/
+theorem traversal_complete (s : View) (h : s.PInvol) (indices seeds : List Nat) :
+    let out := s.traversal indices seeds
+    (∀ e, (∃ t ∈ out, t.2.2 = e) ↔ ∃ d ∈ seeds, s.Reach indices d e) ∧
+    (∀ e, (∃ t ∈ out, t.2.2 = e) → ∀ k ∈ indices, ∃ w ∈ out, w.1 = some k ∧ (w.2.1 = e ∨ w.2.2 = e)) ∧
+    out.Pairwise (fun t t' => ∀ i, t.1 = some i → t'.1 = some i →
+      t.2.1 ≠ t'.2.1 ∧ t.2.1 ≠ t'.2.2 ∧ t.2.2 ≠ t'.2.1 ∧ t.2.2 ≠ t'.2.2) ∧
+    (∀ e, (∃ t ∈ out, t.2.2 = e) → ∃ u ∈ out, u.1 = none ∧ u.2.1 ∈ seeds ∧ s.Reach indices u.2.1 e) ∧
+    out.Pairwise (fun t t' => t.1 = none → t'.1 = none → ¬ s.Reach indices t.2.1 t'.2.1) ∧
+    (∀ f n, travFuel s indices seeds ≤ f → travFuel s indices seeds ≤ n →
+      travCollect s indices f n { seeds := seeds, seen := [], todo := todoInit indices } [] = out) := by
+  intro out
+  obtain ⟨acc, st', hacc, inv, hex⟩ := traversal_run h.range indices seeds
+  have hout : out = acc.reverse := hacc
+  have hfin := inv.final hex
+  have hall := inv.allOK
+  have hT : ∀ e, (∃ t ∈ out, t.2.2 = e) ↔ IsTarget acc e := by
+    intro e; rw [hout]
+    constructor
+    · rintro ⟨t, ht, he⟩; exact ⟨t, List.mem_reverse.1 ht, he⟩
+    · rintro ⟨t, ht, he⟩; exact ⟨t, List.mem_reverse.2 ht, he⟩
+  refine ⟨?_, ?_, ?_, ?_, ?_, ?_⟩
+  · intro e
+    rw [hT]
+    constructor
+    · rintro ⟨t, ht, rfl⟩
+      obtain ⟨u, _, _, hu2, _, hu4⟩ := hall.reach t ht
+      exact ⟨u.2.1, hu2, hu4⟩
+    · rintro ⟨d, hd, hr⟩
+      exact target_closed h hall hfin.1 (hfin.2 d hd) hr
+  · intro e he k hk
+    obtain ⟨w, hw, hwk⟩ := hfin.1 e ((hT e).1 he) k hk
+    exact ⟨w, by rw [hout]; exact List.mem_reverse.2 hw, hwk⟩
+  · rw [hout, List.pairwise_reverse]
+    exact edges_pairwise h hall
+  · intro e he
+    obtain ⟨t, ht, rfl⟩ := (hT e).1 he
+    obtain ⟨u, hu, hu1, hu2, _, hu4⟩ := hall.reach t ht
+    exact ⟨u, by rw [hout]; exact List.mem_reverse.2 hu, hu1, hu2, hu4⟩
+  · rw [hout, List.pairwise_reverse]
+    exact starts_pairwise h hall
+  · intro f n hf hn
+    exact traversal_fuel h.range indices seeds f n hf hn
+
+example : ex2.viewSimple.PInvol ∧ ex2.viewPartial.PInvol :=
+  ⟨ex2_valid.pinvol, ex2_valid.toPartial.pinvol⟩
+
+/-- the hypotheses of `traversal_complete` hold for every representation of valid data -/
+theorem traversal_hyp (ds : DSetData) :
+    (ValidPartialSet ds → ds.viewPartial.PInvol) ∧ (ValidSet ds → ds.viewSimple.PInvol) ∧
+    (∀ s : DSymData, ValidSet s.dset → s.view.PInvol) :=
+  ⟨fun h => h.pinvol, fun h => h.pinvol, fun _ h => h.pinvol⟩
+
+example : ValidSet ex2 := ex2_valid
+
+/-- `orbit(indices, seed)` is the set of chambers reachable from the seed, strictly ascending -/
+theorem orbit_eq_reachable (s : View) (h : s.PInvol) (indices : List Nat) (seed : Nat) :
+    (∀ x, x ∈ s.orbit indices seed ↔ s.Reach indices seed x) ∧
+    (s.orbit indices seed).Pairwise (· < ·) := by
+  refine ⟨?_, sorted_sortDedup _⟩
+  intro x
+  unfold View.orbit
+  rw [mem_sortDedup]
+  have := (traversal_complete s h indices [seed]).1 x
+  simp only [List.mem_singleton, exists_eq_left] at this
+  rw [← this]
+  simp only [List.mem_map]
+
+example : ex2.viewSimple.orbit [0, 1] 1 = [1, 2] := by decide
+
+/-- `orbit_reps(indices, seeds)`: seeds, one in the component of every seed, no two in the same
+    component -/
+theorem orbitReps_one_per_component (s : View) (h : s.PInvol) (indices seeds : List Nat) :
+    (∀ r ∈ s.orbitReps indices seeds, r ∈ seeds) ∧
+    (∀ d ∈ seeds, ∃ r ∈ s.orbitReps indices seeds, s.Reach indices r d) ∧
+    (s.orbitReps indices seeds).Pairwise (fun a b => ¬ s.Reach indices a b) := by
+  obtain ⟨h1, _, _, h4, h5, _⟩ := traversal_complete s h indices seeds
+  have hmem : ∀ r, r ∈ s.orbitReps indices seeds ↔ ∃ t ∈ s.traversal indices seeds, t.1 = none ∧ t.2.1 = r := by
+    intro r
+    unfold View.orbitReps
+    rw [List.mem_filterMap]
+    constructor
+    · rintro ⟨⟨mi, d, di⟩, ht, hf⟩
+      cases mi with
+      | none => simp at hf; exact ⟨_, ht, rfl, hf⟩
+      | some i => simp at hf
+    · rintro ⟨⟨mi, d, di⟩, ht, hn, hr⟩
+      simp only at hn hr
+      subst hn hr
+      exact ⟨_, ht, by simp⟩
+  refine ⟨?_, ?_, ?_⟩
+  · intro r hr
+    obtain ⟨t, ht, hn, rfl⟩ := (hmem r).1 hr
+    obtain ⟨pre, post, hsplit⟩ := List.append_of_mem ht
+    exact ((traversal_sound s indices seeds pre post t hsplit).2.1 hn).2.1
+  · intro d hd
+    obtain ⟨u, hu, hu1, _, hu3⟩ := h4 d ((h1 d).2 ⟨d, hd, View.Reach.refl d⟩)
+    exact ⟨u.2.1, (hmem _).2 ⟨u, hu, hu1, rfl⟩, hu3⟩
+  · unfold View.orbitReps
+    refine List.Pairwise.filterMap _ ?_ h5
+    rintro ⟨mi, d, di⟩ ⟨mi', d', di'⟩ hR b hb b' hb'
+    cases mi with
+    | some i => simp at hb
+    | none =>
+      cases mi' with
+      | some i => simp at hb'
+      | none =>
+        simp at hb hb'
+        subst hb hb'
+        exact hR rfl rfl
+
+example : ex2.viewSimple.orbitReps [2] [1, 2] = [1, 2] := by decide
+
+/-! ### 8. predicates -/
+
+/-- `is_connected()` ⇔ every chamber is reachable from chamber 1 (all indices) -/
+theorem isConnected_iff (s : View) (h : s.PInvol) :
+    s.isConnected = true ↔ ∀ d, 1 ≤ d → d ≤ s.size → s.Reach s.indices 1 d :=
+  DSymVerif.DS.isConnected_iff h
+
+example : ex2.viewSimple.PInvol := ex2_valid.pinvol
+
+/-- `is_complete()` (default and `PartialDSet` override), `is_loopless()` are their definitions -/
+theorem isComplete_isLoopless_iff (s : View) (ds : DSetData) :
+    (s.isComplete = true ↔ ∀ i d, i ≤ s.dim → 1 ≤ d → d ≤ s.size → (s.op i d).isSome = true) ∧
+    (s.isLoopless = true ↔ ∀ i d, i ≤ s.dim → 1 ≤ d → d ≤ s.size → s.op i d ≠ some d) ∧
+    (ds.isCompletePartial = true ↔ ∀ i d, i ≤ ds.dim → 1 ≤ d → d ≤ ds.size → ds.opU i d ≠ 0) := by
+  refine ⟨?_, ?_, ?_⟩
+  · unfold View.isComplete View.indices View.elements
+    simp only [List.all_eq_true, List.mem_range, List.mem_map, forall_exists_index, and_imp,
+      forall_apply_eq_imp_iff₂]
+    constructor
+    · intro hc i d hi h1 h2
+      have := hc i (by omega) (d - 1) (by omega)
+      rwa [Nat.sub_add_cancel h1] at this
+    · intro hc i hi d hd
+      exact hc i (d + 1) (by omega) (by omega) (by omega)
+  · unfold View.isLoopless View.indices View.elements
+    simp only [List.all_eq_true, List.mem_range, List.mem_map, forall_exists_index, and_imp,
+      forall_apply_eq_imp_iff₂, bne_iff_ne, ne_eq]
+    constructor
+    · intro hc i d hi h1 h2
+      have := hc i (by omega) (d - 1) (by omega)
+      rwa [Nat.sub_add_cancel h1] at this
+    · intro hc i hi d hd
+      exact hc i (d + 1) (by omega) (by omega) (by omega)
+  · unfold DSetData.isCompletePartial
+    simp only [List.all_eq_true, List.mem_range, bne_iff_ne, ne_eq]
+    constructor
+    · intro hc i d hi h1 h2
+      have := hc i (by omega) (d - 1) (by omega)
+      rwa [Nat.sub_add_cancel h1] at this
+    · intro hc i hi d hd
+      exact hc i (d + 1) (by omega) (by omega) (by omega)
+
+/-- on complete data the two plain representations answer `op` identically -/
+theorem representations_agree_op (ds : DSetData) (h : ValidSet ds) :
+    ds.opPartial = ds.opSimple ∧ ds.viewPartial = ds.viewSimple ∧
+    ∀ s : DSymData, s.dset = ds → s.op = ds.opSimple :=
+  ⟨h.opPartial_eq_opSimple, h.viewPartial_eq_viewSimple, fun _ hs => by rw [← hs]; rfl⟩
+
+example : ValidSet ex2 := ex2_valid
+
+/-- `is_weakly_oriented()` ⇔ the chamber graph without loops is bipartite (a proper 2-colouring
+    of the non-loop edges exists); `is_oriented()` ⇔ loopless and bipartite.  The signs computed by
+    `partial_orientation` along the full traversal are such a colouring whenever one exists. -/
+theorem isWeaklyOriented_iff_bipartite (s : View) (h : s.PInvol) :
+    (s.isWeaklyOriented = true ↔
+      ∃ c : Nat → Bool, ∀ i d e, i ≤ s.dim → 1 ≤ d → d ≤ s.size → s.op i d = some e → e ≠ d → c e ≠ c d) ∧
+    (s.isOriented = true ↔
+      (∀ i d, i ≤ s.dim → 1 ≤ d → d ≤ s.size → s.op i d ≠ some d) ∧
+      ∃ c : Nat → Bool, ∀ i d e, i ≤ s.dim → 1 ≤ d → d ≤ s.size → s.op i d = some e → e ≠ d → c e ≠ c d) := by
+  have hw := isWeaklyOriented_iff h
+  refine ⟨hw, ?_⟩
+  unfold View.isOriented
+  rw [Bool.and_eq_true, (isComplete_isLoopless_iff s default).2.1, hw]
+  rfl
+
+example : ex2.viewSimple.PInvol := ex2_valid.pinvol
+
+/-- every entry of the `rs` table of `collect_orbits` is the number of some chamber's orbit -/
+theorem collectOrbits_numbering_surjective (s : DSetData) (h : ValidSet s) (k : Nat)
+    (hk : k < (collectOrbits s).rs.size) :
+    ∃ i x, i < s.dim ∧ 1 ≤ x ∧ x ≤ s.size ∧ ((collectOrbits s).index.getD i #[]).getD x 0 = k :=
+  collectOrbits_surj h hk
+
+example : ValidSet ex2 ∧ 0 < (collectOrbits ex2).rs.size := ⟨ex2_valid, by decide⟩
 
 end DSymVerif.C02
